@@ -29,7 +29,7 @@ except KeyError:
 Definition gen_view_enc : list (string * string) := [("known_networks", "[dataclasses.asdict(x) for x in self.known_networks]"); ("known_hosts", "[dataclasses.asdict(x) for x in self.known_hosts]"); ("controlled_hosts", "[dataclasses.asdict(x) for x in self.controlled_hosts]"); ("known_services", "{str(host): [dataclasses.asdict(s) for s in services] for host, services in self.known_services.items()}"); ("known_data", "{str(host): [dataclasses.asdict(d) for d in data] for host, data in self.known_data.items()}"); ("known_blocks", "{str(target_host): [dataclasses.asdict(blocked_host) for blocked_host in blocked_hosts] for target_host, blocked_hosts in self.known_blocks.items()}")].
 Definition gen_view_from_dict : list (string * string) := [("controlled_hosts", "{IP(x['ip']) for x in D['controlled_hosts']}"); ("known_blocks", "known_blocks"); ("known_data", "{IP(k): {Data(v['owner'], v['id'], v.get('size', 0), v.get('type', '')) for v in values} for k, values in D['known_data'].items()}"); ("known_hosts", "{IP(x['ip']) for x in D['known_hosts']}"); ("known_networks", "{Network(x['ip'], x['mask']) for x in D['known_networks']}"); ("known_services", "{IP(k): {Service(s['name'], s['type'], s['version'], s['is_local']) for s in services} for k, services in D['known_services'].items()}")].
 Definition gen_view_from_dict_pre : list string := ["if 'known_blocks' in D:
-    known_blocks = {IP(target_host): {IP(blocked_host['ip'])} for target_host, blocked_hosts in D['known_blocks'].items() for blocked_host in blocked_hosts}
+    known_blocks = {IP(target_host): {IP(blocked_host['ip']) for blocked_host in blocked_hosts} for target_host, blocked_hosts in D['known_blocks'].items()}
 else:
     known_blocks = {}"; "return state"].
 Definition gen_view_from_json : list (string * string) := [("controlled_hosts", "{IP(x['ip']) for x in D['controlled_hosts']}"); ("known_blocks", "{IP(target_host): {IP(blocked_host['ip']) for blocked_host in blocked_hosts} for target_host, blocked_hosts in D['known_blocks'].items()}"); ("known_data", "{IP(k): {Data(v['owner'], v['id'], v.get('size', 0), v.get('type', '')) for v in values} for k, values in D['known_data'].items()}"); ("known_hosts", "{IP(x['ip']) for x in D['known_hosts']}"); ("known_networks", "{Network(x['ip'], x['mask']) for x in D['known_networks']}"); ("known_services", "{IP(k): {Service(s['name'], s['type'], s['version'], s['is_local']) for s in services} for k, services in D['known_services'].items()}")].
